@@ -78,6 +78,17 @@ async fn query_nameserver_udp_notimeout(
         return None;
     }
 
+    #[cfg(feature = "resolved_verif")]
+    if let Some(handler) = verif::handler() {
+        // same as the socket path: the datagram lands in a zeroed 512 byte
+        // buffer, and the whole buffer is parsed.
+        let reply = handler(address, verif::Transport::Udp, serialised_request.to_vec()).await?;
+        let mut buf = vec![0u8; 512];
+        let n = std::cmp::min(reply.len(), buf.len());
+        buf[..n].copy_from_slice(&reply[..n]);
+        return Message::from_octets(&buf).ok();
+    }
+
     let mut buf = vec![0u8; 512];
     let sock = UdpSocket::bind("0.0.0.0:0").await.ok()?;
     sock.connect(address).await.ok()?;
@@ -109,6 +120,12 @@ async fn query_nameserver_tcp_notimeout(
     address: SocketAddr,
     serialised_request: &mut [u8],
 ) -> Option<Message> {
+    #[cfg(feature = "resolved_verif")]
+    if let Some(handler) = verif::handler() {
+        let reply = handler(address, verif::Transport::Tcp, serialised_request.to_vec()).await?;
+        return Message::from_octets(&reply).ok();
+    }
+
     let mut stream = TcpStream::connect(address).await.ok()?;
     send_tcp_bytes(&mut stream, serialised_request).await.ok()?;
     let bytes = read_tcp_bytes(&mut stream).await.ok()?;
@@ -191,6 +208,43 @@ pub fn get_nxdomain_nodata_soa<'a>(
     }
 
     None
+}
+
+/// Verification hook: lets a harness stand in for the network.  When a handler
+/// is installed on the current thread, the `_notimeout` functions hand it the
+/// serialised request instead of opening a socket; everything around them
+/// (timeouts, UDP-then-TCP retry, parsing, `response_matches_request`) is
+/// unchanged.  The handler resolves to `Some(reply bytes)` or `None` (I/O
+/// error); to model silence it simply never resolves.
+#[cfg(feature = "resolved_verif")]
+pub mod verif {
+    use std::cell::RefCell;
+    use std::future::Future;
+    use std::net::SocketAddr;
+    use std::pin::Pin;
+    use std::sync::Arc;
+
+    #[derive(Debug, Copy, Clone, Eq, PartialEq, Hash)]
+    pub enum Transport {
+        Udp,
+        Tcp,
+    }
+
+    pub type Reply = Pin<Box<dyn Future<Output = Option<Vec<u8>>> + Send>>;
+    pub type Handler = Arc<dyn Fn(SocketAddr, Transport, Vec<u8>) -> Reply + Send + Sync>;
+
+    thread_local! {
+        static HANDLER: RefCell<Option<Handler>> = const { RefCell::new(None) };
+    }
+
+    /// Install (or, with `None`, remove) the handler for this thread.
+    pub fn set_handler(handler: Option<Handler>) {
+        HANDLER.with(|h| *h.borrow_mut() = handler);
+    }
+
+    pub fn handler() -> Option<Handler> {
+        HANDLER.with(|h| h.borrow().clone())
+    }
 }
 
 #[cfg(test)]
